@@ -55,10 +55,11 @@ GCmp == /\ Fam("cmp") /\ cur.ok /\ Ops
               LET F(S) == CmpOp(S, C, mn, op, side, x) IN
               Emit([act |-> "cmp", mn |-> mn, op |-> op, side |-> side, x |-> x] @@ Exp(F))
 GType == /\ Fam("etype") /\ cur.ok /\ Mems # {} /\ Ops
-         /\ \A key \in Operands(C) : /\ Emit([act |-> "et_look", key |-> key, exp |-> TypeLookup(C, key)])
-                                      /\ Emit([act |-> "et_export", key |-> key, exp |-> TypeExport(C, key)])
-         /\ Emit([act |-> "et_copy", exp |-> EnumR(C)])
-         /\ Emit([act |-> "et_rename", exp |-> EnumR([nm |-> "renamed", map |-> cur.map])])
+         /\ \A key \in Operands(C) :
+               /\ LET F(S) == ViaCopy(S, C, TypeLookup(C, key)) IN Emit([act |-> "et_look", key |-> key] @@ Exp(F))
+               /\ LET F(S) == ViaCopy(S, C, TypeExport(C, key)) IN Emit([act |-> "et_export", key |-> key] @@ Exp(F))
+         /\ LET F(S) == ViaCopy(S, C, EnumR(C)) IN Emit([act |-> "et_copy"] @@ Exp(F))
+         /\ LET F(S) == ViaCopy(S, C, EnumR([nm |-> "renamed", map |-> cur.map])) IN Emit([act |-> "et_rename"] @@ Exp(F))
 GArith == /\ Fam("arith") /\ cur.ok /\ Ops
           /\ \A mn \in Mems, op \in BinOps, side \in {"l", "r"}, x \in ArithOperands :
                 (side = "r" => x.ty = "int") =>
